@@ -106,6 +106,10 @@ def events_for(form, full=True):
     if full:
         evs.append({"op": "mod", "delta": "+1us", "as": "datetime"})
         evs.append({"op": "mod", "delta": "0", "as": "datetime"})
+        # the caller's modified as a library timestamp object (as read from another object / get_timestamp()), every precision setting
+        for mname in ("0", "+1us", "+999us", "+1ms", "-1s"):
+            for prec in ("any-exact", "millisecond-min", "millisecond-exact"):
+                evs.append({"op": "mod", "delta": mname, "as": "stixdatetime:" + prec})
         for p in ("created", "created_by_ref", "id", "type"):
             evs.append({"op": "unmod", "prop": p})
             evs.append({"op": "unmod-none", "prop": p})
@@ -155,6 +159,10 @@ def changes_for(ev, form, cur_view, depth):
         cur = tsfmt.instant_of(cur_view.get("modified") or cur_view.get("created"))
         t = cur + MOD_US[ev["delta"]] * tsfmt.PS_PER_US
         val = tsfmt.fmt(t // tsfmt.PS_PER_US, "any") if ev["as"] == "str" else to_dt(t)
+        if ev["as"].startswith("stixdatetime:"):
+            import stix2.utils
+            pr, co = ev["as"].split(":")[1].split("-")
+            val = stix2.utils.parse_into_datetime(to_dt(t), precision=pr, precision_constraint=co)      # library-made: consistent with its own metadata
         return {"modified": val, "description": "m%d" % depth}
     if op == "unmod":
         p = ev["prop"]
@@ -222,6 +230,9 @@ def step(form, obj, ev, part, case, depth):
         return None
     if op == "mod":
         given = tsfmt.instant_of(ch["modified"]) if isinstance(ch["modified"], str) else cur + MOD_US[ev["delta"]] * tsfmt.PS_PER_US
+        if ev["as"].startswith("stixdatetime:"):
+            import stix2.utils
+            given = tsfmt.instant_of(stix2.utils.format_datetime(ch["modified"]))       # the instant the caller's timestamp object denotes when written
         later = trunc_ps(given, ver) > trunc_ps(cur, ver)
         if not later:
             part.outcome("explicit-modified-refused" if err is not None else "explicit-modified-not-refused")
